@@ -11,6 +11,10 @@ claimed = {
    text="Proof, for every node object, taint list (any length/order), effect and API failure: AddToBeRemovedTaint sends the fetched object only if it did not carry the escalator taint when fetched (never re-stamped), with the fetched taints in order plus exactly one new taint (key, defaulted effect, current Unix time); DeleteToBeRemovedTaint sends it only if it carried the taint and removes exactly the first such taint (swap with last), keeping every other one; both write nothing else of any Node object (syntactic frame over all v1/metav1 field arrays). 30 obligations on the two real functions.",
    ref="§7 C15",
    note="Get returns a deep-fresh copy whose taints are recorded by the got* spec functions (assumed contract on NodeInterface.Get); Update never mutates the object sent; fmt.Sprint(int64) is injective decimal formatting (assumed); history part (later scale-downs cannot restart the grace period) follows because the check is made on the freshly fetched object on every call. " + GLOBAL_NOTE),
+ "C16": dict(
+   text="Proof (validator half), for every NodeGroupOptions value: if ValidateNodeGroup returns no problem then name/label/cloud group are non-empty, 0 < lower < upper < scale-up threshold, 0 <= slow <= fast, 0 < soft < hard, cool-down > 0, (0 <= min < max or min = max = 0), taint effect/lifecycle/max_node_age valid. Nine tagged postconditions on the real function, its checkThat closure and the duration getters under contract. The decoding half (same configuration as YAML or JSON decodes to the same options, every documented key honoured) is NOT decided: it is reflection over struct tags inside encoding/json and k8s yaml, which no contract on escalator code expresses.",
+   ref="§7 C16, §9",
+   note="time.ParseDuration is modelled by uninterpreted parseDurOK/parseDurVal (assumed contract); k8s.TaintEffectTypes holds exactly the three effects (precondition, established by package init and never written); private duration caches are zero on a freshly decoded configuration (precondition). Finding F5 (negative slow rate accepted) was found by post#2 and fixed in /repo (commit e368c23). YAML/JSON decoding: not applicable to this technique, stated here rather than claimed. " + GLOBAL_NOTE),
 }
 
 pending_reason = "not claimed in this build: the contracts for the functions this property depends on are not yet all discharged (work in progress; see DESIGN.md §7 for the plan)"
